@@ -52,15 +52,20 @@ def skipValueFast (data : Bytes) (stack0 : Array Nat) : R Unit × Array Nat :=
   let (e, pk) := ofResult res
   ({ val := (), p := res.p, err := e, panicked := pk }, st)
 
-/-- `Valid` -/
-def valid (data : Bytes) (stack0 : Array Nat) : Option Bool × Array Nat :=
-  let (r, st) := skipValue data stack0
-  if r.panicked then (none, st)
-  else if r.err.isSome then (some false, st)
-  else if r.p > data.size then (some true, st)
+/-- the part of `Valid` after the machine returned `(p, err)` -/
+def validOf (data : Bytes) (res : Result Unit) : Option Bool :=
+  let (e, pk) := ofResult res
+  if pk then none
+  else if e.isSome then some false
+  else if res.p > data.size then some true
   else
     -- p + countWhitespace(data[p:]) >= len(data)
-    (some (decide (countWsFrom data data.size r.p.toNat ≥ data.size)), st)
+    some (decide (countWsFrom data data.size res.p.toNat ≥ data.size))
+
+/-- `Valid` -/
+def valid (data : Bytes) (stack0 : Array Nat) : Option Bool × Array Nat :=
+  let rs := runPlain Gen.SkipValue.machine data stack0
+  (validOf data rs.1, rs.2)
 
 /-! ## token.go -/
 
